@@ -1,0 +1,32 @@
+//go:build verif
+
+package lossy
+
+import "sync/atomic"
+
+// VerifRecon is a copy of the encoder's own reconstruction (the planes it used
+// as prediction reference) taken right after EncodeFrame emitted the bitstream.
+type VerifRecon struct {
+	Width, Height     int
+	MbW, MbH          int
+	YStride, UVStride int
+	Y, U, V           []byte
+	Method            int
+	UsedParallel      bool
+}
+
+// VerifAfterEncodeHook, when set, receives the reconstruction of every encoded frame.
+var VerifAfterEncodeHook atomic.Pointer[func(VerifRecon)]
+
+func verifAfterEncode(enc *VP8Encoder) {
+	f := VerifAfterEncodeHook.Load()
+	if f == nil {
+		return
+	}
+	(*f)(VerifRecon{
+		Width: enc.width, Height: enc.height, MbW: enc.mbW, MbH: enc.mbH,
+		YStride: enc.yStride, UVStride: enc.uvStride,
+		Y: append([]byte(nil), enc.yPlane...), U: append([]byte(nil), enc.uPlane...), V: append([]byte(nil), enc.vPlane...),
+		Method: enc.config.Method,
+	})
+}
